@@ -37,6 +37,8 @@ pub struct Shared {
     pub elapsing: bool,
     /// async only, paused clock: a scripted not-ready turn of the write half lasts an hour of (virtual) time instead of no time
     pub slow: bool,
+    /// async only: poll_shutdown was called (the write half is closed: every later write fails, as on a socket)
+    pub shut: bool,
     pub nap: Option<Pin<Box<tokio::time::Sleep>>>,
 }
 #[derive(Clone, Debug)]
@@ -107,6 +109,7 @@ impl AsyncWrite for Transport {
     fn poll_write(self: Pin<&mut Self>, cx: &mut Context<'_>, buf: &[u8]) -> Poll<io::Result<usize>> {
         let mut s = self.0.lock().unwrap();
         s.polls += 1;
+        if s.shut { return Poll::Ready(Err(io::Error::new(io::ErrorKind::BrokenPipe, "write after shutdown"))); }
         if let Some(n) = s.nap.as_mut() { match std::future::Future::poll(n.as_mut(), cx) { Poll::Pending => return Poll::Pending, Poll::Ready(()) => { s.nap = None; } } }
         match s.wscript.pop_front() {
             None => { s.written.extend_from_slice(buf); s.all_written.extend_from_slice(buf); s.wcalls.push(buf.len()); Poll::Ready(Ok(buf.len())) },
@@ -117,7 +120,7 @@ impl AsyncWrite for Transport {
         }
     }
     fn poll_flush(self: Pin<&mut Self>, _cx: &mut Context<'_>) -> Poll<io::Result<()>> { Poll::Ready(Ok(())) }
-    fn poll_shutdown(self: Pin<&mut Self>, _cx: &mut Context<'_>) -> Poll<io::Result<()>> { Poll::Ready(Ok(())) }
+    fn poll_shutdown(self: Pin<&mut Self>, _cx: &mut Context<'_>) -> Poll<io::Result<()>> { self.0.lock().unwrap().shut = true; Poll::Ready(Ok(())) }
 }
 
 pub fn mode_of(c: bool) -> Mode { if c { Mode::Compressed } else { Mode::Uncompressed } }
